@@ -625,7 +625,9 @@ pub fn c18(rng: &mut Rng, thorough: bool, idx: u64) -> Spec {
     let session = !exhaustion && rng.chance(0.2);
     // (session mode: one server per connected client, so that nobody queues for a whole connect_timeout)
     let pool_size = if exhaustion { 1 } else if session { 10 } else { rng.range(2, 4) as u32 };
-    let mut cfg = single_pool(if session { "session" } else { "transaction" }, pool_size, 0);
+    // a third of the ordinary runs: a replica that the operator bans while everybody is busy
+    let with_ban = !exhaustion && !session && rng.chance(0.3);
+    let mut cfg = single_pool(if session { "session" } else { "transaction" }, pool_size, if with_ban { 1 } else { 0 });
     cfg.set("connect_timeout", if exhaustion { 100 } else { 60000 });
     if exhaustion {
         cfg.pools[0].extra.push("checkout_failure_limit = 2".into());
@@ -763,6 +765,10 @@ pub fn c18(rng: &mut Rng, thorough: bool, idx: u64) -> Spec {
     // the sampling admin
     let mut a = admin_client(500, "main", When::AtMs { ms: 0 }, &[]);
     let mut steps = Vec::new();
+    if with_ban {
+        steps.push(Step::Think { ms: rng.range(5, 60) });
+        steps.push(q("BAN pg-s0-r0 60".into(), 0));
+    }
     for ev in &quiet_events {
         steps.push(Step::Wait { ev: ev.clone() });
     }
@@ -786,7 +792,7 @@ pub fn c18(rng: &mut Rng, thorough: bool, idx: u64) -> Spec {
     let mut spec = Spec { config_toml: cfg.render(), hosts: cfg.hosts(), net, clients, end: EndSpec { deadline_ms: 900_000, calm_ms: 50 }, ..Default::default() };
     spec.params = params_from(&cfg);
     spec.params.insert("c18_roles".into(), serde_json::Value::Object(roles));
-    spec.family = format!("stats/{}{}", if session { "session" } else { "transaction" }, if exhaustion { "/checkout_failure_limit" } else { "" });
+    spec.family = format!("stats/{}{}{}", if session { "session" } else { "transaction" }, if exhaustion { "/checkout_failure_limit" } else { "" }, if with_ban { "/replica_banned" } else { "" });
     spec.oracles = vec!["c18_stats".into(), "liveness".into()];
     spec
 }
